@@ -221,10 +221,19 @@ def run_table(case, ctx):
     data = rng.randn(n, 6) * [1, 1, 1, 10, 10, 10]
     imu = pd.DataFrame(data, index=pd.Index(t, name='time'), columns=COLS)
     imu['extra'] = 7.0
+    layout = case['sub'] % 4
+    if layout == 1:       # accelerometer columns first
+        imu = imu[['accel_x', 'accel_y', 'accel_z', 'gyro_x', 'gyro_y', 'gyro_z', 'extra']]
+    elif layout == 2:     # an unrelated leading column, interleaved sensors
+        imu = imu[['extra', 'gyro_x', 'accel_x', 'gyro_y', 'accel_y', 'gyro_z', 'accel_z']]
+    canonical = imu[COLS]
     snap = imu.copy()
     inc = ctx.sut(strapdown.compute_increments_from_imu, imu, case['sensor_type'])
     ctx.check(imu.equals(snap), 'input_modified', '')
-    ctx.label(f"type={case['sensor_type']}", f"stamps={case['stamps']}")
+    ctx.label(f"type={case['sensor_type']}", f"stamps={case['stamps']}", f'column_layout={layout if layout < 3 else 0}')
+    # columns are addressed by label: the same table in another column order gives the same result
+    ref_inc = strapdown.compute_increments_from_imu(canonical, case['sensor_type'])
+    ctx.check(bits_equal(inc.values, ref_inc.values), 'column_order_dependent', 'result depends on the order of the labelled IMU columns')
     ctx.check(list(inc.columns) == ['dt', 'theta_x', 'theta_y', 'theta_z', 'dv_x', 'dv_y', 'dv_z'], 'columns', str(list(inc.columns)))
     ctx.check(len(inc) == n - 1, 'row_count', f'{len(inc)} vs {n - 1}')
     ctx.check(bits_equal(np.asarray(inc.index, float), t[1:]), 'index_not_sample_times', lambda: f'{list(inc.index)[:5]} vs {t[1:6]}')
